@@ -12,7 +12,7 @@ use crate::fail;
 use crate::gen::{btor_words, choices_strategy, doc_strategy, spec_strategy, AigDoc, Doc, Role};
 use crate::inputs::{boundary_numbers, input_strategy, Input};
 use crate::refs::{aiger_prefix_len, read_aiger, read_dimacs, read_log, symbol_limit_violation, Reading};
-use crate::source::{feed_strategy, Feed};
+use crate::source::Feed;
 
 pub fn def() -> PropDef {
     PropDef {
@@ -541,7 +541,7 @@ fn run(ctx: &Ctx) {
             3 => violation_strategy(),
             3 => input_strategy(8, true),
         ],
-        feed_strategy(),
+        crate::source::parser_feed_strategy(),
     )
         .prop_map(|(input, feed)| Case { input, feed });
     ctx.run_cases("reference-reading", n, strat, check);
